@@ -109,6 +109,34 @@ pub struct Env {
     pub cur_file: Option<std::fs::File>,
 }
 
+/// milliseconds (since process start) at which the current in-process case started; 0 = none
+pub static INPROC_STARTED_MS: AtomicU64 = AtomicU64::new(0);
+pub const EXIT_HANG: i32 = 87;
+
+fn now_ms() -> u64 {
+    static START: std::sync::OnceLock<Instant> = std::sync::OnceLock::new();
+    START.get_or_init(Instant::now).elapsed().as_millis() as u64 + 1
+}
+
+/// Watchdog for code that runs inside the shard process: a case announced with note_case() that
+/// is not finished (case_done()) after 20 s ends the process with EXIT_HANG.
+pub fn start_inproc_watchdog() {
+    std::thread::spawn(|| loop {
+        std::thread::sleep(std::time::Duration::from_millis(500));
+        let st = INPROC_STARTED_MS.load(Ordering::Relaxed);
+        if st != 0 && now_ms().saturating_sub(st) > 20_000 {
+            let fd = crate::alloc::NOTE_FD.load(Ordering::Relaxed);
+            if fd >= 0 {
+                let m = b"HANG: in-process case did not finish within 20 s\n";
+                unsafe {
+                    libc::write(fd as i32, m.as_ptr() as *const _, m.len());
+                }
+            }
+            unsafe { libc::_exit(EXIT_HANG) }
+        }
+    });
+}
+
 impl Env {
     /// Record the case that is about to be executed in-process, so that the parent can
     /// report it if this process dies (abort, stack overflow, oversized allocation).
@@ -120,6 +148,11 @@ impl Env {
                 let _ = f.set_len(v.len() as u64);
             }
         }
+        INPROC_STARTED_MS.store(now_ms(), Ordering::Relaxed);
+    }
+    /// the in-process part of the case announced with note_case() is over
+    pub fn case_done(&self) {
+        INPROC_STARTED_MS.store(0, Ordering::Relaxed);
     }
     pub fn fresh_dir(&self, tag: &str) -> PathBuf {
         let n = self.case_no.fetch_add(1, Ordering::Relaxed);
